@@ -204,6 +204,21 @@ int main(int argc, char** argv) {
         fprintf(fc, "V %s %d", prec, mask); emit_xc();
         fprintf(fi, "%llu\n", (unsigned long long)(dbl ? call_value<double>(t, x.data(), c.data(), mask) : call_value<float>(t, x.data(), c.data(), mask)));
         stats["mask_bits_" + std::to_string(__builtin_popcount(mask))]++;
+        // value-plus-gradient: every lane must be the value / single-derivative evaluation (checked exactly below)
+        if (nd + 1 <= 8) {
+          int dsel = r.range(0, nd - 1);
+          uint64_t v0 = dbl ? call_value<double>(t, x.data(), c.data(), 0) : call_value<float>(t, x.data(), c.data(), 0);
+          uint64_t vd = dbl ? call_value<double>(t, x.data(), c.data(), 1 << dsel) : call_value<float>(t, x.data(), c.data(), 1 << dsel);
+          fprintf(fc, "V %s 0", prec); emit_xc(); fprintf(fi, "%llu\n", (unsigned long long)v0);
+          fprintf(fc, "V %s %d", prec, 1 << dsel); emit_xc(); fprintf(fi, "%llu\n", (unsigned long long)vd);
+          std::vector<double> gm(nd + 1, -7);
+          if (dbl) t.ndsplineeval_gradient<double>(x.data(), c.data(), gm.data()); else t.ndsplineeval_gradient<float>(x.data(), c.data(), gm.data());
+          fprintf(fc, "G %s", prec); emit_xc();
+          for (uint32_t j = 0; j <= nd; j++) fprintf(fi, "%s%llu", j ? " " : "", (unsigned long long)cbits(gm[j])); fprintf(fi, "\n");
+          if (cbits(gm[0]) != v0) { path_mismatch++; fprintf(fc, "X gradient value lane != plain value\n"); fprintf(fi, "mismatch %llu %llu\n", (unsigned long long)cbits(gm[0]), (unsigned long long)v0); }
+          if (cbits(gm[dsel + 1]) != vd) { path_mismatch++; fprintf(fc, "X gradient lane %d != single-derivative evaluation\n", dsel + 1); fprintf(fi, "mismatch %llu %llu\n", (unsigned long long)cbits(gm[dsel + 1]), (unsigned long long)vd); }
+          stats["gradient_points"]++;
+        }
         // arbitrary-order derivative (always float storage in the table member)
         std::vector<unsigned> ks(nd); bool big = false;
         for (uint32_t d = 0; d < nd; d++) { ks[d] = r.range(0, g.ord[d] + 1); if (ks[d] >= 2) big = true; }
